@@ -196,12 +196,19 @@ class FakeBatchClient:
         self.h = h
         self.batches = []
         self.next_id = 1
+        self.fail_lists = 0        # the next n first listings of a batch refresh raise
 
     def create_batch(self, attributes=None, callback=None, **k):
         return self.h.prop.FakeBatch(self, dict(attributes))
 
     async def list_batches(self, q):
         await self.h.api('list_batches ' + q)
+        if 'source_sha=' in q:      # the listing of PR._update_batch (not the orphan sweep of _heal)
+            self.h.batch_list_calls += 1
+            if self.fail_lists > 0 and self.h.batch_list_calls == 1:
+                self.fail_lists -= 1
+                self.h.batch_failed = True
+                raise FaultInjected('list_batches failed')
         terms = q.split()
         out = []
         for b in reversed(self.batches):
@@ -255,6 +262,8 @@ class History:
         self.n_merges = 0
         self.pending_flags = []
         self.in_block = False
+        self.batch_list_calls = 0
+        self.batch_failed = False
         self.clock = 0                 # logical time: one tick per API call / op
         self.pass_id = 0               # number of top-level entry-point calls so far
         self.delivered = None          # the latest GitHub webhook / poll delivered to CI: time, pass, GitHub's PRs at that moment
@@ -427,11 +436,17 @@ class History:
 
         async def w_batch(bc, db):
             self.in_block = True
+            self.batch_list_calls = 0
+            self.batch_failed = False
             try:
                 await o_batch(bc, db)
             finally:
-                self.tags.append('ev:batch')
-                self.emit('batch')
+                if self.batch_failed:
+                    self.tags.append('fault:batch-refresh')
+                    self.emit('batchfail')
+                else:
+                    self.tags.append('ev:batch')
+                    self.emit('batch')
                 await self.end_block()
 
         async def w_heal(db, bc, gh, frozen):
@@ -509,6 +524,8 @@ class History:
             gh.fail_refreshes += 1
         elif t == 'fault_post':
             gh.fail_posts += 1
+        elif t == 'fault_batch':
+            self.bc.fail_lists += 1
         elif t in ('notify_gh', 'notify_batch', 'update'):
             wb = self.wb
             f = {'notify_gh': wb.notify_github_changed, 'notify_batch': wb.notify_batch_changed, 'update': wb.update}[t]
@@ -642,7 +659,7 @@ class C30(Prop):
     budget = {'quick': 500, 'thorough': 8000}
     search_budget = {'quick': 600, 'thorough': 8000}
     rule = ('case = history of world events (open/push/close PR, review decision, labels, status of an external check, target-branch push, '
-            'batch completion, scripted checkout failure / merge rejection / failing GitHub refresh / failing status post) and CI entry points (github webhook, batch callback, periodic '
+            'batch completion, scripted checkout failure / merge rejection / failing GitHub refresh / failing status post / failing batch listing) and CI entry points (github webhook, batch callback, periodic '
             'update), optionally with world events applied at the k-th API call inside an update; head shas from a small pool so that PRs can '
             'share a head; non-trivial = at least one merge request or a fired is_mergeable assertion; distinct by the trace of event outputs')
     trusted = ['fake GitHub (REST refs/pulls/statuses/merge + GraphQL reviewDecision/statusCheckRollup with pagination) and fake batch client '
@@ -789,6 +806,8 @@ class C30(Prop):
                 return ['fault_refresh']
             if r < 0.984:
                 return ['fault_post']
+            if r < 0.99:
+                return ['fault_batch']
             if r < 0.985:
                 open_prs.remove(n)
                 return ['close', n]
@@ -843,6 +862,26 @@ class C30(Prop):
         ops += [['notify_gh', []], ['done', 0, 1], ['notify_batch', []], ['update', []]]
         return {'ci_required': rng.random() < 0.7, 'ci_last': False, 'order_desc': False, 'ops': ops}
 
+    def gen_push_after_green(self, rng):
+        """the old head was tested green but not merged; the author pushes a new commit (and the PR gets approved); the batch listing
+        fails in the pass that notices the push; the next events are GitHub webhooks only: the new head must not be merged on the
+        old head's batch"""
+        k = rng.choice([1, 1, 2])
+        ops = [['open', i, 500 + 10 * i, 1, '00000'] for i in range(1, k + 1)]
+        if rng.random() < 0.4:
+            ops += [['review', i, 'APPROVED'] for i in range(1, k + 1)] + [['labels', i, '01000'] for i in range(1, k + 1)]
+        ops.append(['notify_gh', []])
+        ops += [['done', 0, 1] for _ in range(k)]
+        ops.append(['notify_batch', []])
+        victim = rng.randint(1, k)
+        ops += [['push', victim, 500 + 10 * victim + rng.randint(1, 5)], ['review', victim, 'APPROVED'], ['labels', victim, '00000']]
+        ops.append(rng.choice([['fault_batch'], ['fault_batch'], ['fault_refresh'], ['fault_post']]))
+        ops.append(['notify_gh', []])
+        for _ in range(rng.choice([1, 2, 3])):
+            ops.append(rng.choice([['notify_gh', []], ['notify_gh', []], ['review', victim, 'APPROVED'], ['fault_batch']]))
+        ops += [['notify_gh', []], ['done', 0, 1], ['notify_batch', []], ['update', []]]
+        return {'ci_required': rng.random() < 0.7, 'ci_last': False, 'order_desc': False, 'ops': ops}
+
     def gen_many_contexts(self, rng):
         """a head commit with 11-25 status contexts / check runs (the GraphQL query returns them 10 per page): everything is green,
         approved, unlabelled and up to date except ONE required context, which often sits on the second or third page"""
@@ -887,6 +926,8 @@ class C30(Prop):
         for i in range(n):
             if i % 8 == 1:
                 yield self.gen_many_contexts(rng)
+            elif i % 8 == 6:
+                yield self.gen_push_after_green(rng)
             elif i % 8 == 5:
                 yield self.gen_mid_refresh(rng)
             elif i % 8 == 3:
